@@ -65,8 +65,10 @@ Deliver in `{wt}/SEED/`:
 * `meta.json` - keys `property` ("{pid}"), `summary` (what was changed and how it is disguised), `needs` (precisely what
   is required for the defect to manifest and what does NOT trigger it), `files_changed`, `why_hard`, `tests_run`
   (the commands you ran and their results).
-Verify all of this yourself before you finish (apply the patch to a clean checkout state with `git stash`/`git apply`,
-run both suites, run the demo with and without). Leave the worktree with your change applied.
+Verify all of this yourself before you finish: save the diff, `git checkout -- src` to get the unchanged sources, run the
+demo (must exit 0), `git apply SEED/patch.diff`, run both suites and the demo again (must exit 1). NEVER use `git stash`
+(the stash is shared with other worktrees of this repository and other people are working in those). Leave the worktree
+with your change applied.
 
 ## Theme of this round
 
